@@ -7,7 +7,7 @@ import ast
 from . import facts
 from .index import ClassInfo, Program, is_self_attr, walk_no_nested
 from .layout import Alt, Fail, Field, Rep, Sub, Unit, find_units, has_stream, header_unit, interpret_unit, walk_terms
-from .report import AnalysisError, norm
+from .report import AnalysisError, head, norm
 from .unify import GuardFail, Unifier, is_self, normalise
 
 # Object invariants that no code in the package establishes and that the codecs rely on; listed as
@@ -165,4 +165,21 @@ def no_stale_derived_state(prog: Program, cd: "Codecs", rep, rule="no-stale-deri
             n += 1
             if f.kind == "cached":
                 rep.fail(rule, c.module.path.name, f"{c.name}.{f.name}", f.node, f"`{c.name}.{f.name}` is memoised ({', '.join(f.decorators)}) although the object it is derived from is mutable: after an in-place edit the segment table / size / encoding is stale")
-    rep.ok(rule, f"{n} methods of codec classes examined: none memoises a value derived from mutable state")
+    # .. and encoding / measuring an object does not change it: a writer that edits its own object "for the duration of the write"
+    # leaves it edited when the write is refused half-way, and makes what is written depend on how often it was written
+    for u in list(cd.units.values()) + list(cd.bad_units.values()):
+        c = u.cls
+        if c is None:
+            continue
+        for f in [x for x in c.all_funcs() if x.name in ("_write", "write", "bwrite", "nBytes", "_segments")]:
+            sn = f.self_name or "self"
+            for st in walk_no_nested(f.node):
+                tgs = st.targets if isinstance(st, ast.Assign) else [st.target] if isinstance(st, (ast.AugAssign, ast.AnnAssign)) else st.targets if isinstance(st, ast.Delete) else []
+                for t in tgs:
+                    base = t
+                    while isinstance(base, (ast.Attribute, ast.Subscript)):
+                        base = base.value
+                    if isinstance(t, (ast.Attribute, ast.Subscript)) and isinstance(base, ast.Name) and base.id == sn:
+                        rep.fail(rule, c.module.path.name, f"{c.name}.{f.name}", st, f"`{norm(head(st))[:60]}`: {c.name}.{f.name} stores into the object it encodes / measures: the object is left changed when the "
+                                 "operation is refused part-way, and the bytes depend on earlier writes", construct=f"{c.name}.{f.name} stores {norm(t)}")
+    rep.ok(rule, f"{n} methods of codec classes examined: none memoises a value derived from mutable state, no writer / size getter stores into its object")
